@@ -30,6 +30,9 @@ struct ProtoEnv<'a> {
     name: &'a str,
     g: &'a GrammarSpec,
     eos_all: Vec<u32>,
+    /// grammars with stop= / max_tokens= lexemes: rollback is documented as unsupported
+    /// ("rollback not supported with max_tokens=... or stop=... lexemes"), i.e. an invalid call
+    no_rollback: bool,
 }
 
 impl<'a> ProtoEnv<'a> {
@@ -163,11 +166,83 @@ fn matcher_dfs(env: &ProtoEnv, m: &Matcher, model: &Model, calls: &mut Vec<Strin
     ops.push(("validate_all".into(), 3, 0));
     ops.push(("reset".into(), 4, 0));
     ops.push(("ff_tokens".into(), 5, 0));
+    // batches through consume_tokens / try_consume_tokens: around every EOS token, and one plain pair
+    let mut batches: Vec<Vec<u32>> = vec![];
+    if !model.failed && !model.stopped {
+        let plain: Vec<u32> = legal.iter().copied().filter(|t| !env.eos_all.contains(t)).take(2).collect();
+        for e in env.eos_all.iter() {
+            batches.push(vec![*e, *e]);
+            for t in plain.iter() {
+                batches.push(vec![*t, *e, *t]);
+                batches.push(vec![*e, *t]);
+                batches.push(vec![*t, *e]);
+            }
+        }
+        for t in plain.iter() {
+            batches.push(vec![*t, *t]);
+        }
+    }
+    for (bi, b) in batches.iter().enumerate() {
+        ops.push((format!("consume_tokens({:?})", b), 6, bi as u32));
+        ops.push((format!("try_consume_tokens({:?})", b), 7, bi as u32));
+    }
     for (name, kind, arg) in ops {
         let mut c = m.clone();
         let mut md = model.clone();
         calls.push(name.clone());
         match kind {
+            6 | 7 => {
+                // reference: the tokens one at a time through the model
+                let b = &batches[arg as usize];
+                let mut n_ok = 0usize;
+                // inside a batch the "complete and not extensible" stop is only evaluated at the end
+                // (an EOS right after the final token is what the mask would offer); an EOS ends it at once
+                // (consume_tokens); try_consume_tokens checks for a stop after every token, like single commits
+                let mut eos_seen = false;
+                for t in b.iter() {
+                    md.stopped = eos_seen || (kind == 7 && env.stops_after(&md.text) && !md.toks.is_empty() && md.toks.len() > model.toks.len());
+                    if !env.legal(&md).contains(t) {
+                        break;
+                    }
+                    md.toks.push(*t);
+                    if env.eos_all.contains(t) {
+                        eos_seen = true;
+                    } else {
+                        md.text.extend_from_slice(&env.vocab.tokens[*t as usize]);
+                    }
+                    n_ok += 1;
+                }
+                md.stopped = eos_seen || env.stops_after(&md.text);
+                if kind == 6 {
+                    let r = c.consume_tokens(b);
+                    if n_ok == b.len() {
+                        if let Err(e) = r {
+                            *out = Some(pviol(env, "matcher", "legal_batch_refused", "protocol-error-on-legal-call", calls, json!({"err": e.to_string()})));
+                        }
+                    } else {
+                        md = model.clone();
+                        if r.is_ok() {
+                            *out = Some(pviol(env, "matcher", "illegal_batch_accepted", "protocol-illegal-call-accepted", calls, json!({"batch": b, "longest_legal_prefix": n_ok, "text": show(&model.text), "engine_stopped_afterwards": c.is_stopped()})));
+                        } else if c.is_error() {
+                            md.failed = true;
+                        } else {
+                            // usable: then it must be in the state the legal prefix leads to, or untouched;
+                            // both are "as if ignored" only when nothing was consumed
+                            *out = Some(pviol(env, "matcher", "batch_error_but_usable", "protocol-silently-wrong", calls, json!({"batch": b})));
+                        }
+                    }
+                } else {
+                    match c.try_consume_tokens(b) {
+                        Ok(k) if k == n_ok => {}
+                        Ok(k) => {
+                            *out = Some(pviol(env, "matcher", "try_consume_tokens_count", "protocol-mask-mismatch", calls, json!({"batch": b, "engine": k, "reference": n_ok, "text": show(&model.text)})));
+                        }
+                        Err(e) => {
+                            *out = Some(pviol(env, "matcher", "try_consume_tokens_error", "protocol-error-on-legal-call", calls, json!({"batch": b, "err": e.to_string()})));
+                        }
+                    }
+                }
+            }
             0 => {
                 let t = arg;
                 let is_legal = legal.contains(&t);
@@ -203,6 +278,12 @@ fn matcher_dfs(env: &ProtoEnv, m: &Matcher, model: &Model, calls: &mut Vec<Strin
                 if model.failed {
                     if r.is_ok() {
                         *out = Some(pviol(env, "matcher", "rollback_on_failed_engine_ok", "protocol-silently-wrong", calls, json!({})));
+                    }
+                } else if env.no_rollback {
+                    if r.is_ok() {
+                        *out = Some(pviol(env, "matcher", "unsupported_rollback_accepted", "protocol-illegal-call-accepted", calls, json!({"k": k})));
+                    } else if c.is_error() {
+                        md.failed = true;
                     }
                 } else if k <= model.toks.len() {
                     if let Err(e) = r {
@@ -250,7 +331,26 @@ fn matcher_dfs(env: &ProtoEnv, m: &Matcher, model: &Model, calls: &mut Vec<Strin
             }
             4 => {
                 let r = c.reset();
-                if !model.failed {
+                if !model.failed && env.no_rollback && !model.toks.is_empty() {
+                    // reset = rollback of everything: unsupported for these grammars
+                    if r.is_ok() {
+                        // the reset reported success: then the engine must be back in its initial state
+                        let fresh_mask = env.f.matcher(env.g).compute_mask().ok().map(|m| mask_to_vec(&m));
+                        let now_mask = c.clone().compute_mask().ok().map(|m| mask_to_vec(&m));
+                        if fresh_mask != now_mask {
+                            let mut v = pviol(env, "matcher", "reset_ok_but_not_reset", "reset-reports-success-without-resetting", calls, json!({"mask_after_reset": now_mask, "initial_mask": fresh_mask, "text_before_reset": show(&model.text)}));
+                            // specific signature: the grammar and the text committed before the reset
+                            v.signature = format!("reset_ok_but_not_reset|{}|text={}", env.name, show(&model.text));
+                            *out = Some(v);
+                        } else {
+                            md.toks.clear();
+                            md.text.clear();
+                            md.stopped = false;
+                        }
+                    } else if c.is_error() {
+                        md.failed = true;
+                    }
+                } else if !model.failed {
                     if let Err(e) = r {
                         *out = Some(pviol(env, "matcher", "reset_refused", "protocol-error-on-legal-call", calls, json!({"err": e.to_string()})));
                     } else {
@@ -416,6 +516,11 @@ fn proto_grammars() -> Vec<(&'static str, GrammarSpec, R)> {
         ("alt-star", GrammarSpec::Regex("(a|b)c*".into()), cat(alt(a(), b()), R::Star(Box::new(c())))),
         ("empty-ok", GrammarSpec::Regex("a*".into()), R::Star(Box::new(a()))),
         ("two-lexemes", GrammarSpec::Lark("start: A B?\nA: /a+/\nB: \"b\"".into()), cat(R::Plus(Box::new(a())), R::Opt(Box::new(b())))),
+        // gen-style attributes: the byte language is still regular (body, then the stop / suffix text)
+        ("stop-attr", GrammarSpec::Lark("start: g \",\"\ng[stop=\"x\"]: /[a-c]*/".into()), cat(R::Star(Box::new(R::Class(vec![('a', 'c')], false))), cat(ch('x'), ch(',')))),
+        ("suffix-attr", GrammarSpec::Lark("start: g \",\"\ng[suffix=\"x\"]: /[a-c]*/".into()), cat(R::Star(Box::new(R::Class(vec![('a', 'c')], false))), cat(ch('x'), ch(',')))),
+        ("lazy-attr", GrammarSpec::Lark("start: h \",\"\nh[lazy]: /[a-cx]*x/".into()), cat(R::Star(Box::new(R::Class(vec![('a', 'c')], false))), cat(ch('x'), ch(',')))),
+        ("stop-at-eos", GrammarSpec::Lark("start: \"x\" g\ng[stop=\"\"]: /[a-c]*/".into()), cat(ch('x'), R::Star(Box::new(R::Class(vec![('a', 'c')], false))))),
         ("list", GrammarSpec::Lark("start: W (\",\" W)*\nW: /[ab]+/".into()), {
             let w = R::Plus(Box::new(R::Class(vec![('a', 'b')], false)));
             cat(w.clone(), R::Star(Box::new(cat(ch(','), w))))
@@ -446,7 +551,8 @@ fn run_protocol(ctx: &Ctx) {
         let dfa = compile(&r);
         let mut eos_all = vec![vocab.eos];
         eos_all.extend(vocab.extra_eos.iter().copied());
-        let env = ProtoEnv { f: &f, vocab, dfa: &dfa, name, g: &g, eos_all };
+        let no_rollback = matches!(&g, GrammarSpec::Lark(t) if t.contains("[stop=") || t.contains("max_tokens="));
+        let env = ProtoEnv { f: &f, vocab, dfa: &dfa, name, g: &g, eos_all, no_rollback };
         let mut out = None;
         let mut calls = vec![];
         if *constraint {
